@@ -388,7 +388,8 @@ func ParseControlBlock(controlBlock []byte) (*ControlBlock, error) {
 
 // TweakTaprootPrivKey = txscript.TweakTaprootPrivKey with elements tag
 func TweakTaprootPrivKey(privKey *btcec.PrivateKey, scriptRoot []byte) *btcec.PrivateKey {
-	privKeyScalar := &privKey.Key
+	// work on a copy: Negate and Add operate in place and must not touch the caller's key
+	privKeyScalar := privKey.Key
 	pubKeyBytes := privKey.PubKey().SerializeCompressed()
 	if pubKeyBytes[0] == secp.PubKeyFormatCompressedOdd {
 		privKeyScalar.Negate()
@@ -399,8 +400,8 @@ func TweakTaprootPrivKey(privKey *btcec.PrivateKey, scriptRoot []byte) *btcec.Pr
 	)
 	var tweakScalar btcec.ModNScalar
 	tweakScalar.SetBytes((*[32]byte)(tapTweakHash))
-	privTweak := privKeyScalar.Add(&tweakScalar)
-	return btcec.PrivKeyFromScalar(privTweak)
+	privKeyScalar.Add(&tweakScalar)
+	return btcec.PrivKeyFromScalar(&privKeyScalar)
 }
 
 // ComputeTaprootOutputKey = txscript.ComputeTaprootOutputKey with elements tag
